@@ -139,7 +139,10 @@ class TaskScheduler(object):
                         # delivered to the tasks awaiting it when they unwrap its value.
                         if not task.is_computed():
                             task.set_error(error)
-                    self._tasks.pop()
+                    if self._tasks and self._tasks[-1] is task:
+                        # (not so when a synchronous call made by the future's value
+                        # provider hit the stack limit, which empties the stack)
+                        self._tasks.pop()
         except BaseException:
             # Something escaped from a task, context or future: leave none of the tasks of
             # this computation on the stack, so that the scheduler can be used again.
@@ -214,7 +217,9 @@ class TaskScheduler(object):
                     debug.write("@async: skipping %s" % debug.str(task))
                 task._dependencies_scheduled = False
                 task._pause_contexts()
-                self._tasks.pop()
+                if self._tasks and self._tasks[-1] is task:
+                    # (see _execute: a pause() hook can make a synchronous call, too)
+                    self._tasks.pop()
             # If the task is blocked and we haven't scheduled its dependencies, we
             # should do so now.
             else:
